@@ -734,6 +734,16 @@ def joinA : AState → AState → Option AState
     | _, _ => none
   | _, _ => none
 
+/-- branches ordered by the value they test: the compiler emits them in the
+    iteration order of a hash map, so the search visits them in a canonical
+    order instead (untrusted search only; `ownCheck` reads the item as dumped) -/
+def insertBr (p : Nat × Nat) : List (Nat × Nat) → List (Nat × Nat)
+  | [] => [p]
+  | q :: qs => if p.1 ≤ q.1 then p :: q :: qs else q :: insertBr p qs
+
+def sortBrs (brs : List (Nat × Nat)) : List (Nat × Nat) :=
+  brs.foldr insertBr []
+
 def certSet (cert : Cert) (l : Nat) (a : AState) : Cert :=
   (l, a) :: cert.filter (fun p => p.1 ≠ l)
 
@@ -761,7 +771,7 @@ def propagate (it : Item) : Nat → List (Nat × AState) → Cert → Verdict
           match b.term with
           | .jump l' => propagate it fuel ((l', a1) :: work) cert'
           | .switch d brs dflt =>
-            let es := brs.map (fun p => (p.2, a1)) ++
+            let es := (sortBrs brs).map (fun p => (p.2, a1)) ++
               (match dflt with
                | some l' => [(l', aDefaultEdge it a1 b.instrs d brs)]
                | none => [])
